@@ -17,6 +17,7 @@ import (
 
 	"verif/harness"
 	"verif/sim"
+	"verif/sim/snet"
 	"verif/ulib"
 )
 
@@ -24,7 +25,7 @@ type upd struct {
 	bit       int
 	node      int
 	doneAt    time.Duration // when the commit was observed
-	state     int // 0 in flight (body running), 1 body finished (committing), 2 committed, 3 aborted
+	state     int           // 0 in flight (body running), 1 body finished (committing), 2 committed, 3 aborted
 	startedAt time.Duration
 }
 
@@ -44,19 +45,21 @@ type sec struct {
 }
 
 type sys struct {
-	w        *sim.World
-	n        int
-	interval time.Duration
-	sendTO   time.Duration
-	progs    [][]sec
-	upds     []*upd
-	seen     []int32 // per node: union of bits seen in committed reads so far
-	lastRead []int32
-	done     []bool
-	listenAt []time.Duration // when each node's resource started listening (-1 = not yet)
-	stop     bool
-	desc     string
+	w            *sim.World
+	n            int
+	interval     time.Duration
+	sendTO       time.Duration
+	progs        [][]sec
+	upds         []*upd
+	seen         []int32 // per node: union of bits seen in committed reads so far
+	lastRead     []int32
+	done         []bool
+	listenAt     []time.Duration // when each node's resource started listening (-1 = not yet)
+	stop         bool
+	desc         string
 	lastCommitAt time.Duration
+	isolated     []bool // nodes that become connected-but-silent (half-open partition) at isoAt, for good
+	isoAt        time.Duration
 }
 
 func (s *sys) committedMask() int32 {
@@ -128,6 +131,17 @@ func (s *sys) generate() {
 		}
 		s.progs = append(s.progs, prog)
 	}
+	s.isolated = make([]bool, s.n)
+	if s.n == 4 && w.Choose(sim.KFault, 3) == 1 {
+		// two of the four replicas go silent (their connections stay open, nothing arrives any
+		// more): the other two are still connected peers of each other and must keep
+		// exchanging every committed update
+		a := w.Choose(sim.KFault, 4)
+		b := (a + 1 + w.Choose(sim.KFault, 3)) % 4
+		s.isolated[a], s.isolated[b] = true, true
+		s.isoAt = time.Duration(w.Choose(sim.KFault, 6)) * s.interval
+		fmt.Fprintf(&sb, "| nodes %d and %d silent from %v on ", a, b, s.isoAt)
+	}
 	s.desc = sb.String()
 	s.seen = make([]int32, s.n)
 	s.lastRead = make([]int32, s.n)
@@ -148,7 +162,7 @@ func (s *sys) required(i int) int32 {
 		if u.state != stCommitted {
 			continue
 		}
-		if u.node == i || (s.listenAt[i] >= 0 && u.startedAt > s.listenAt[i]) {
+		if u.node == i || (!s.isolated[i] && !s.isolated[u.node] && s.listenAt[i] >= 0 && u.startedAt > s.listenAt[i]) {
 			m |= 1 << u.bit
 		}
 	}
@@ -269,7 +283,9 @@ func (s *sys) runNode(i int) {
 	secs = append(secs, distsys.MPCalCriticalSection{Name: "A.Done", Body: func(distsys.ArchetypeInterface) error { return distsys.ErrDone }})
 	arch := distsys.MPCalArchetype{Name: "A", Label: "A.p0", RequiredRefParams: []string{"A.c"},
 		JumpTable: distsys.MakeMPCalJumpTable(secs...), ProcTable: distsys.MakeMPCalProcTable(), PreAmble: func(distsys.ArchetypeInterface) {}}
-	w.Go(fmt.Sprintf("N%d", i), func() {
+	var tk *sim.Task
+	tk = w.Go(fmt.Sprintf("N%d", i), func() {
+		snet.Of(w).DeclareNode(fmt.Sprintf("n%d", i), tk.ID)
 		if d := w.Choose(sim.KCfg, 3); d > 0 {
 			w.Sleep(time.Duration(d) * s.interval) // peers come up late
 		}
@@ -308,8 +324,24 @@ func scenario(w *sim.World) {
 		w.Probe("small_merge_queue")
 	}
 	w.Event("cfg %s", s.desc)
+	anyIso := false
+	for i := 0; i < s.n; i++ {
+		snet.Of(w).PlaceAddr(addr(i), fmt.Sprintf("n%d", i))
+		anyIso = anyIso || s.isolated[i]
+	}
 	for i := 0; i < s.n; i++ {
 		s.runNode(i)
+	}
+	if anyIso {
+		w.Go("silence", func() {
+			w.Sleep(s.isoAt + time.Microsecond)
+			for i := 0; i < s.n; i++ {
+				if s.isolated[i] {
+					snet.Of(w).Isolate(fmt.Sprintf("n%d", i))
+				}
+			}
+			w.Probe("two_peers_silent")
+		})
 	}
 	allDone := func() bool {
 		for _, d := range s.done {
@@ -333,6 +365,9 @@ func scenario(w *sim.World) {
 		return true
 	}
 	bound := 20*s.interval + 2*s.sendTO + time.Second
+	if anyIso {
+		bound += 8 * s.sendTO // every broadcast round waits out the silent peers' time-outs
+	}
 	ok := w.Await(converged, bound)
 	if w.Failed() {
 		return
